@@ -33,12 +33,14 @@ class Env(object):
         self.perturb = perturb     # canary: deliberately wrong R
         self.vars = {}             # name -> z3 var (shared dict passed around)
         self.oob = {}
+        self.dist_log = []         # (lhs leaf name | None, [weight values], guarded?) per dist statement instance
 
     def child(self, owner=None, itvars=None):
         e = Env(self.prog, self.world, self.owner if owner is None else owner,
                 self.itvars if itvars is None else itvars, self.perturb)
         e.vars = self.vars
         e.oob = self.oob
+        e.dist_log = self.dist_log
         return e
 
     # ---- path resolution
@@ -354,18 +356,25 @@ def stmts_formula(stmts, env, softs=None, guards=()):
         elif k == "dist":
             terms = []
             zero = []
+            wvals = []
             for item, w in s[2]:
                 if isinstance(w, list):
-                    wt, ww, ws = env.leaf_term(_leafpath(w, env))
-                    wv = z3.simplify(wt)
+                    # weights are expressions over non-random fields (concrete per run): evaluated at call time
+                    wv = z3.simplify(ev(w, env, 64))
                     wnz = wv.as_long() != 0
+                    wvals.append(wv.as_long())
                 else:
                     wnz = w != 0
+                    wvals.append(w)
                 if item[0] == "rng":
                     m = z3.And(truth([">=", s[1], item[1]], env), truth(["<=", s[1], item[2]], env))
                 else:
                     m = truth(["==", s[1], item], env)
                 (terms if wnz else zero).append(m)
+            try:
+                env.dist_log.append((vname(_leafpath(s[1], env)) if s[1][0] in ("f", "it") else None, wvals, bool(guards)))
+            except Exception:
+                env.dist_log.append((None, wvals, True))
             # listed with a non-zero weight, and not named by any zero-weight entry ("zero weight means never")
             acc.append(z3.And(z3.Or(*terms) if terms else z3.BoolVal(False), z3.Not(z3.Or(*zero)) if zero else z3.BoolVal(True)))
         elif k in ("order", "raise"):
